@@ -288,7 +288,7 @@ fn exact_fit_sweep(seed: u64, variant: u64, base: &str, st: &mut ReplyStats) {
     }
     let digest = vec![WDigestEntry { id: mk_wid("peer", 0, addr(7999)), heartbeat: 1, last_gc: 0, max_version: 0 }];
     // is the last key included for length L? (monotone in L)
-    let mut included = |s: &mut TestNode, l: usize, st: &mut ReplyStats, check: bool, use_ack: bool| -> bool {
+    let included = |s: &mut TestNode, l: usize, st: &mut ReplyStats, check: bool, use_ack: bool| -> bool {
         s.cc.self_node_state().set("z", fit_from(base, 777, l, l as u64));
         let zver = s.cc.self_node_state().max_version();
         let bytes = if use_ack { synack_bytes(&digest, &[]) } else { syn_bytes("c", &digest) };
